@@ -14,7 +14,8 @@ EXPLANATION = (
     "handle_expired_probes emits NameChange and moves records to active; (d) F4 rename taint over every record "
     "builder: names that can be renamed pass DnsRegistry::resolve_name (or set_new_name from name_changes).  Decides "
     "these mechanisms, not convergence of several daemons over schedules."
-    " (e) The answering service is selected by its resolved (post-rename) name.")
+    " (e) The answering service is selected by its resolved (post-rename) name."
+    " (g) An interface's DnsRegistry is only created when absent (renames survive add_interface).")
 UNDECIDED = ["convergence of two or three daemons (global liveness over schedules)", "text of the generated names (unit-tested string functions)",
              "opposite verdicts on both sides as a value-level property of cmp"]
 
@@ -228,6 +229,8 @@ def clause_d(ctx, P):
 
 
 def run(ctx, P):
+    from . import r2
+    r2.interface_rules(ctx, P, "C08g", want=("registry",))
     from . import f5
     f5.check_map_key_consistency(ctx, P, "C08f.F5.name-changes-keys", "name_changes", "DnsRegistry")
     f4.check_service_selected_by_resolved_name(ctx, P, "C08e")
